@@ -96,96 +96,211 @@ func c03AnalyseCounterFlow(p *Prog, fn *ssa.Function) c03CounterFlow {
 		desc[v] = d
 		changed = true
 	}
-	for iter := 0; changed && iter < 64; iter++ {
-		changed = false
-		allInstrs(fn, func(in ssa.Instruction) {
-			switch i := in.(type) {
-			case *ssa.Phi:
-				if c03IntWidth(i.Type()) == 0 {
-					return
-				}
-				d := full
-				if c03IntWidth(i.Type()) < 64 {
-					d.width = c03IntWidth(i.Type())
-				}
-				for _, e := range i.Edges {
-					if ed, ok := get(e); ok && (!ed.known || ed != d) {
-						d = c03Desc{}
-						break
-					}
-				}
-				set(i, d)
-			case *ssa.BinOp:
-				if c03IntWidth(i.Type()) == 0 {
-					return
-				}
-				dx, lx := get(i.X)
-				dy, ly := get(i.Y)
-				if !lx && !ly {
-					return
-				}
-				switch i.Op {
-				case token.ADD, token.SUB, token.MUL, token.QUO, token.REM:
-					if (lx && dx != full) || (ly && dy != full) {
-						set(i, c03Desc{})
-					} else {
-						set(i, full)
-					}
-				case token.SHR:
-					if c, ok := c03ConstInt(i.Y); ok && lx && dx.known && c >= 0 && int(c) < dx.width {
-						set(i, c03Desc{known: true, shift: dx.shift + int(c), width: dx.width - int(c)})
-					} else {
-						set(i, c03Desc{})
-					}
-				case token.AND:
-					if c, ok := c03ConstInt(i.Y); ok && lx && dx.known && c > 0 && (c&(c+1)) == 0 {
-						k := 0
-						for m := c; m > 0; m >>= 1 {
-							k++
-						}
-						if k > dx.width {
-							k = dx.width
-						}
-						set(i, c03Desc{known: true, shift: dx.shift, width: k})
-						return
-					}
-					fallthrough
-				case token.XOR, token.OR:
-					switch {
-					case lx && !ly:
-						set(i, dx)
-					case ly && !lx:
-						set(i, dy)
-					default:
-						set(i, c03Desc{})
-					}
-				default:
-					set(i, c03Desc{})
-				}
-			case *ssa.Convert:
-				dx, lx := get(i.X)
-				if !lx {
-					return
-				}
-				w := c03IntWidth(i.Type())
-				if w == 0 || !dx.known {
-					set(i, c03Desc{})
-					return
-				}
-				if w < dx.width {
-					dx.width = w
-				}
-				set(i, dx)
-			case *ssa.ChangeType:
-				if dx, lx := get(i.X); lx {
-					set(i, dx)
-				}
-			case *ssa.UnOp:
-				if _, lx := get(i.X); lx && i.Op != token.MUL {
-					set(i, c03Desc{})
+	// the functions analysed: fn and, transitively, every same-module function (or closure)
+	// that receives a loop-variant integer from one of them
+	fset := []*ssa.Function{fn}
+	inSet := map[*ssa.Function]bool{fn: true}
+	var addAnon func(f *ssa.Function)
+	addAnon = func(f *ssa.Function) {
+		for _, a := range f.AnonFuncs { // closures see the enclosing function's counters through captured variables
+			if !inSet[a] {
+				inSet[a] = true
+				fset = append(fset, a)
+				addAnon(a)
+			}
+		}
+	}
+	addAnon(fn)
+	// integer variables that live in memory (captured by closures, per-iteration copies of loop
+	// variables): a load is loop-variant when the cell is written more than once or the pointer
+	// may denote several cells
+	var cellsOf func(v ssa.Value, seen map[ssa.Value]bool) []*ssa.Alloc
+	cellsOf = func(v ssa.Value, seen map[ssa.Value]bool) []*ssa.Alloc {
+		if seen[v] {
+			return nil
+		}
+		seen[v] = true
+		switch x := v.(type) {
+		case *ssa.Alloc:
+			return []*ssa.Alloc{x}
+		case *ssa.Phi:
+			var out []*ssa.Alloc
+			for _, e := range x.Edges {
+				out = append(out, cellsOf(e, seen)...)
+			}
+			return out
+		case *ssa.FreeVar:
+			if b := resolveFreeVar(x); b != nil {
+				return cellsOf(b, seen)
+			}
+		}
+		return nil
+	}
+	storeCount := map[*ssa.Alloc]int{}
+	countStores := func(f *ssa.Function) {
+		allInstrs(f, func(in ssa.Instruction) {
+			if st, ok := in.(*ssa.Store); ok {
+				for _, a := range cellsOf(st.Addr, map[ssa.Value]bool{}) {
+					storeCount[a]++
 				}
 			}
 		})
+	}
+	counted := map[*ssa.Function]bool{}
+	addFn := func(g *ssa.Function) {
+		if !inSet[g] {
+			inSet[g] = true
+			fset = append(fset, g)
+			changed = true
+		}
+	}
+	follow := func(c ssa.CallInstruction) *ssa.Function {
+		g := staticCallee(c)
+		if g == nil || c.Common().IsInvoke() || len(g.Blocks) == 0 || !p.InModule(g) {
+			return nil
+		}
+		return g
+	}
+	for iter := 0; changed && iter < 64; iter++ {
+		changed = false
+		for k := 0; k < len(fset); k++ {
+			if !counted[fset[k]] {
+				counted[fset[k]] = true
+				countStores(fset[k])
+				changed = true
+			}
+		}
+		for k := 0; k < len(fset); k++ {
+			allInstrs(fset[k], func(in ssa.Instruction) {
+				switch i := in.(type) {
+				case ssa.CallInstruction:
+					g := follow(i)
+					if g == nil {
+						return
+					}
+					cc := i.Common()
+					for k, a := range cc.Args {
+						if d, lv := get(a); lv && k < len(g.Params) {
+							addFn(g)
+							set(g.Params[k], d)
+						}
+					}
+					if mc, ok := cc.Value.(*ssa.MakeClosure); ok {
+						for k, b := range mc.Bindings {
+							if d, lv := get(b); lv && k < len(g.FreeVars) {
+								addFn(g)
+								set(g.FreeVars[k], d)
+							}
+						}
+					}
+					if v, ok := i.(ssa.Value); ok && inSet[g] && c03IntWidth(v.Type()) > 0 {
+						allInstrs(g, func(rin ssa.Instruction) {
+							if ret, ok := rin.(*ssa.Return); ok && len(ret.Results) == 1 {
+								if d, lv := get(ret.Results[0]); lv {
+									set(v, d)
+								}
+							}
+						})
+					}
+				case *ssa.Phi:
+					if c03IntWidth(i.Type()) == 0 {
+						return
+					}
+					d := full
+					if c03IntWidth(i.Type()) < 64 {
+						d.width = c03IntWidth(i.Type())
+					}
+					for _, e := range i.Edges {
+						if ed, ok := get(e); ok && (!ed.known || ed != d) {
+							d = c03Desc{}
+							break
+						}
+					}
+					set(i, d)
+				case *ssa.BinOp:
+					if c03IntWidth(i.Type()) == 0 {
+						return
+					}
+					dx, lx := get(i.X)
+					dy, ly := get(i.Y)
+					if !lx && !ly {
+						return
+					}
+					switch i.Op {
+					case token.ADD, token.SUB, token.MUL, token.QUO, token.REM:
+						if (lx && dx != full) || (ly && dy != full) {
+							set(i, c03Desc{})
+						} else {
+							set(i, full)
+						}
+					case token.SHR:
+						if c, ok := c03ConstInt(i.Y); ok && lx && dx.known && c >= 0 && int(c) < dx.width {
+							set(i, c03Desc{known: true, shift: dx.shift + int(c), width: dx.width - int(c)})
+						} else {
+							set(i, c03Desc{})
+						}
+					case token.AND:
+						if c, ok := c03ConstInt(i.Y); ok && lx && dx.known && c > 0 && (c&(c+1)) == 0 {
+							k := 0
+							for m := c; m > 0; m >>= 1 {
+								k++
+							}
+							if k > dx.width {
+								k = dx.width
+							}
+							set(i, c03Desc{known: true, shift: dx.shift, width: k})
+							return
+						}
+						fallthrough
+					case token.XOR, token.OR:
+						switch {
+						case lx && !ly:
+							set(i, dx)
+						case ly && !lx:
+							set(i, dy)
+						default:
+							set(i, c03Desc{})
+						}
+					default:
+						set(i, c03Desc{})
+					}
+				case *ssa.Convert:
+					dx, lx := get(i.X)
+					if !lx {
+						return
+					}
+					w := c03IntWidth(i.Type())
+					if w == 0 || !dx.known {
+						set(i, c03Desc{})
+						return
+					}
+					if w < dx.width {
+						dx.width = w
+					}
+					set(i, dx)
+				case *ssa.ChangeType:
+					if dx, lx := get(i.X); lx {
+						set(i, dx)
+					}
+				case *ssa.UnOp:
+					if _, lx := get(i.X); lx && i.Op != token.MUL {
+						set(i, c03Desc{})
+					}
+					if w := c03IntWidth(i.Type()); i.Op == token.MUL && w > 0 {
+						cells := cellsOf(i.X, map[ssa.Value]bool{})
+						variant := len(cells) > 1
+						for _, a := range cells {
+							if storeCount[a] > 1 {
+								variant = true
+							}
+						}
+						if variant {
+							set(i, c03Desc{known: true, shift: 0, width: w})
+						}
+					}
+				}
+			})
+		}
 	}
 
 	var out c03CounterFlow
@@ -196,71 +311,83 @@ func c03AnalyseCounterFlow(p *Prog, fn *ssa.Function) c03CounterFlow {
 		}
 		return fmt.Sprintf("bits %d..%d of the counter", d.shift, d.shift+d.width-1)
 	}
-	allInstrs(fn, func(in ssa.Instruction) {
-		switch i := in.(type) {
-		case *ssa.Store:
-			d, lv := get(i.Val)
-			if !lv {
-				return
-			}
-			if c03IntWidth(i.Val.Type()) == 8 && d.known {
-				out.Coverage |= c03Bits(d, 8)
-				out.Sinks = append(out.Sinks, fmt.Sprintf("byte store of %s at %s", show(d), pos(i)))
-			} else {
-				out.Unclassified = append(out.Unclassified, fmt.Sprintf("store of %s at %s", show(d), pos(i)))
-			}
-		case ssa.CallInstruction:
-			cc := i.Common()
-			name := c03CalleeName(i)
-			for _, a := range cc.Args {
-				d, lv := get(a)
+	for _, cur := range fset {
+		cur := cur
+		allInstrs(cur, func(in ssa.Instruction) {
+			switch i := in.(type) {
+			case *ssa.Store:
+				d, lv := get(i.Val)
 				if !lv {
-					continue
+					return
 				}
-				n := 0
-				switch {
-				case strings.HasSuffix(name, "Uint64"):
-					n = 64
-				case strings.HasSuffix(name, "Uint32"):
-					n = 32
-				case strings.HasSuffix(name, "Uint16"):
-					n = 16
+				if len(cellsOf(i.Addr, map[ssa.Value]bool{})) > 0 {
+					return // the integer moves into a local variable; its loads are followed
 				}
-				isPut := strings.HasPrefix(name, "encoding/binary.") && (strings.Contains(name, ".PutUint") || strings.Contains(name, ".AppendUint")) && n > 0
-				switch {
-				case isPut && strings.Contains(name, ".bigEndian.") && d.known:
-					out.Coverage |= c03Bits(d, n)
-					out.Sinks = append(out.Sinks, fmt.Sprintf("%s of %s at %s", strings.TrimPrefix(name, "encoding/binary."), show(d), pos(i)))
-				case isPut && strings.Contains(name, ".littleEndian."):
-					out.LittleEndian = append(out.LittleEndian, fmt.Sprintf("%s at %s", strings.TrimPrefix(name, "encoding/binary."), pos(i)))
-				default:
-					what := name
-					if what == "" {
-						what = "a dynamic call"
+				if c03IntWidth(i.Val.Type()) == 8 && d.known {
+					out.Coverage |= c03Bits(d, 8)
+					out.Sinks = append(out.Sinks, fmt.Sprintf("byte store of %s at %s", show(d), pos(i)))
+				} else {
+					out.Unclassified = append(out.Unclassified, fmt.Sprintf("store of %s at %s", show(d), pos(i)))
+				}
+			case ssa.CallInstruction:
+				cc := i.Common()
+				name := c03CalleeName(i)
+				if g := follow(i); g != nil && inSet[g] {
+					return // followed into the callee
+				}
+				for _, a := range cc.Args {
+					d, lv := get(a)
+					if !lv {
+						continue
 					}
-					out.Unclassified = append(out.Unclassified, fmt.Sprintf("argument of %s at %s", what, pos(i)))
+					n := 0
+					switch {
+					case strings.HasSuffix(name, "Uint64"):
+						n = 64
+					case strings.HasSuffix(name, "Uint32"):
+						n = 32
+					case strings.HasSuffix(name, "Uint16"):
+						n = 16
+					}
+					isPut := strings.HasPrefix(name, "encoding/binary.") && (strings.Contains(name, ".PutUint") || strings.Contains(name, ".AppendUint")) && n > 0
+					switch {
+					case isPut && strings.Contains(name, ".bigEndian.") && d.known:
+						out.Coverage |= c03Bits(d, n)
+						out.Sinks = append(out.Sinks, fmt.Sprintf("%s of %s at %s", strings.TrimPrefix(name, "encoding/binary."), show(d), pos(i)))
+					case isPut && strings.Contains(name, ".littleEndian."):
+						out.LittleEndian = append(out.LittleEndian, fmt.Sprintf("%s at %s", strings.TrimPrefix(name, "encoding/binary."), pos(i)))
+					default:
+						what := name
+						if what == "" {
+							what = "a dynamic call"
+						}
+						out.Unclassified = append(out.Unclassified, fmt.Sprintf("argument of %s at %s", what, pos(i)))
+					}
+				}
+			case *ssa.Return:
+				if cur != fn {
+					return // flows back to the followed call sites
+				}
+				for _, rv := range i.Results {
+					if _, lv := get(rv); lv {
+						out.Unclassified = append(out.Unclassified, "returned at "+pos(i))
+					}
+				}
+			case *ssa.MakeInterface:
+				if _, lv := get(i.X); lv {
+					out.Unclassified = append(out.Unclassified, "boxed into an interface at "+pos(i))
+				}
+			case *ssa.MapUpdate:
+				if _, lv := get(i.Value); lv {
+					out.Unclassified = append(out.Unclassified, "stored into a map at "+pos(i))
+				}
+			case *ssa.Send:
+				if _, lv := get(i.X); lv {
+					out.Unclassified = append(out.Unclassified, "sent on a channel at "+pos(i))
 				}
 			}
-		case *ssa.Return:
-			for _, rv := range i.Results {
-				if _, lv := get(rv); lv {
-					out.Unclassified = append(out.Unclassified, "returned at "+pos(i))
-				}
-			}
-		case *ssa.MakeInterface:
-			if _, lv := get(i.X); lv {
-				out.Unclassified = append(out.Unclassified, "boxed into an interface at "+pos(i))
-			}
-		case *ssa.MapUpdate:
-			if _, lv := get(i.Value); lv {
-				out.Unclassified = append(out.Unclassified, "stored into a map at "+pos(i))
-			}
-		case *ssa.Send:
-			if _, lv := get(i.X); lv {
-				out.Unclassified = append(out.Unclassified, "sent on a channel at "+pos(i))
-			}
-		}
-	})
+		})
+	}
 	return out
 }
 
